@@ -247,3 +247,36 @@ func guard(f func()) (pv interface{}, panicked bool) {
 	f()
 	return
 }
+
+// rowCount reads the number of rows through Row() (the QueryRowContext path of
+// the connection pool interface). No fault is ever injected into it: what a
+// failing Row() read hands to the caller is not part of this property.
+func rowCount(h *gorm.DB) (n int, err error, pv interface{}, panicked bool) {
+	pv, panicked = guard(func() {
+		err = h.Model(&Row{}).Select("count(*)").Row().Scan(&n)
+	})
+	return
+}
+
+// foreignConn scans the recorded driver calls of one transaction (from its
+// BEGIN to its COMMIT/ROLLBACK, or to the end of the log) and returns the first
+// statement-level call that did not use the transaction's connection: every
+// statement issued through a handle of the transaction runs on its sql.Tx.
+func foreignConn(evs []recsqlite.Event) string {
+	conn := -1
+	for _, ev := range evs {
+		switch {
+		case conn < 0:
+			if ev.Kind == "begin" && ev.Err == nil {
+				conn = ev.Conn
+			}
+		case ev.Kind == "commit" || ev.Kind == "rollback":
+			if ev.Conn == conn {
+				return ""
+			}
+		case ev.IsStatement() && ev.Conn != conn:
+			return fmt.Sprintf("%s %q on connection %d, the transaction runs on connection %d", ev.Kind, normSQL(ev.SQL), ev.Conn, conn)
+		}
+	}
+	return ""
+}
